@@ -100,23 +100,26 @@ def showFrame : Frame → String
   | .data id len e => s!"D{id}:{len}:{flag e "e"}"
   | .rst id => s!"R{id}"
 
-def insertSorted (x : String) : List String → List String
+def frameStream : Frame → Nat
+  | .settings _ => 0
+  | .settingsAck => 0
+  | .windowUpdate id _ => id
+  | .priority id => id
+  | .headers id _ _ _ => id
+  | .continuation id _ _ => id
+  | .data id _ _ => id
+  | .rst id => id
+
+/-- stable insertion by stream id: frames of one stream keep their order; the order between
+streams is not compared (different goroutines write them) -/
+def insertByStream (x : Frame) : List Frame → List Frame
   | [] => [x]
-  | y :: ys => if x ≤ y then x :: y :: ys else y :: insertSorted x ys
+  | y :: ys => if frameStream x < frameStream y then x :: y :: ys else y :: insertByStream x ys
 
-def sortStrings (l : List String) : List String := l.foldr insertSorted []
+def sortByStream (l : List Frame) : List Frame := l.foldl (fun acc x => insertByStream x acc) []
 
-/-- operations whose frames are written by several goroutines in no fixed order -/
-def unordered : Op → Bool
-  | .close _ => true
-  | .peer (.goaway _) => true
-  | _ => false
-
-def showStep (op : Option Op) (r : List Frame × Bool × Bool) : String :=
-  let fs := r.1.map showFrame
-  let fs := match op with
-    | some o => if unordered o then sortStrings fs else fs
-    | none => fs
+def showStep (r : List Frame × Bool × Bool) : String :=
+  let fs := (sortByStream r.1).map showFrame
   let body := if fs.isEmpty then "-" else ",".intercalate fs
   body ++ (if r.2.1 then ",X" else "") ++ (if r.2.2 then ",P" else "")
 
@@ -128,7 +131,7 @@ def laneScript : List String → String
                          maxHeaderList := mhl, strict := strict == "1", fixes := fx }
       let (st, pre) := newConn cfg
       let steps := scriptRun st ops
-      ";".intercalate (showStep none (pre, false, false) :: (ops.zip steps).map fun (o, r) => showStep (some o) r)
+      ";".intercalate (((pre.map showFrame) |> fun l => ",".intercalate l) :: steps.map showStep)
     | _, _, _, _, _, _ => "bad-op"
   | _ => "bad-op"
 
